@@ -424,13 +424,13 @@ def key_warnings(project, suppress=False):
     default = locs[0]
     inherits = cfg.get("inherits") or {}
     out = []
-    if suppress:
-        return out
     for ns in (cfg.get("namespaces") or [None]):
         dtree = project["data"][(ns, default)]
         for l in locs[1:]:
             ltree = project["data"][(ns, l)]
             _cmp_trees(dtree, ltree, l, ns, (), l in inherits, out)
+    if suppress:
+        return []
     return sorted(out)
 
 
